@@ -96,26 +96,35 @@ package crypto
 //@ loop 1 invariant 0 <= i && i <= A_len && p == &out[96*i]
 //@ loop 1 assigns out[0:96*A_len], i, p
 
+// Polynomial images (C07): e2horner(A, n, x) is the value at x of the polynomial with the n coefficients A[0..n) in G2, in
+// Horner form (spec function: zero for n <= 0, add(scale(H(A+1, n-1, x), x), A[0]) otherwise; scale = BLST's small-exponent
+// multiplication, uninterpreted). Public share k is the image at k+1.
 //@ cfunc E2_polynomial_images props C07 C09
-//@ requires 0 <= len_y && len_y <= 255 && degree >= 0 && valid(y, len_y) && valid(A, degree+1)
+//@ requires 0 <= len_y && len_y <= 255 && degree >= 0 && valid(y, len_y) && valid(A, degree+1) && obj(y) != obj(A)
 //@ assigns y[0:len_y]
+//@ ensures [every-public-share-is-the-polynomial-image-at-its-index] forall(k, 0, len_y, ptAt(y, k) == old(e2horner(A, degree+1, k+1)))
 //@ loop 1 invariant 0 <= i && i <= len_y
+//@ loop 1 invariant [images-so-far] forall(k, 0, i, ptAt(y, k) == old(e2horner(A, degree+1, k+1)))
 //@ loop 1 assigns y[0:len_y], i
 
 //@ cfunc E2_polynomial_image props C07 C09
-//@ requires y != nil && degree >= 0 && valid(A, degree+1)
+//@ requires y != nil && degree >= 0 && valid(A, degree+1) && obj(y) != obj(A)
 //@ assigns *y
+//@ ensures [horner-form-of-the-polynomial] *y == e2horner(A, degree+1, x)
 //@ loop 1 invariant -1 <= i && i <= degree
+//@ loop 1 invariant [partial-horner] *y == e2horner(A, i+1, degree-i, x)
 //@ loop 1 assigns *y, i
 
-//@ cfunc E2_mult_small_expo nobody
+//@ cfunc E2_mult_small_expo nobody params res p expo
 //@ requires res != nil && p != nil
 //@ assigns *res
+//@ ensures *res == e2MulSmall(old(*p), expo)
 
 //@ cfunc Fr_polynomial_image_write props C06 C07 C09
-//@ requires degree >= 0 && valid(out, 32) && valid(a, degree+1) && (y == nil || valid(y, 1) && obj(y) != obj(out))
+//@ requires degree >= 0 && valid(out, 32) && valid(a, degree+1) && obj(out) != obj(a) && (y == nil || valid(y, 1) && obj(y) != obj(out) && obj(y) != obj(a))
 //@ assigns out[0:32], y[0:1]
 //@ ensures [public-image-is-the-generator-times-the-written-share] y != nil ==> e2Eq(g2mulgen(be32(out[0:32])), *y)
+//@ ensures [written-share-is-the-polynomial-image] be32(out[0:32]) == old(frhorner(a, degree+1, x))
 
 //@ cfunc map_bytes_to_Fr props C12 C09
 //@ requires a != nil && in_len >= 0 && valid(in, in_len)
@@ -186,13 +195,15 @@ package crypto
 //@ assigns dest[0:96*len(A)]
 
 //@ func frPolynomialImage mode int props C06 C07 C09
-//@ requires len(dest) >= 32 && len(a) >= 1 && (y == nil || valid(y, 1) && obj(y) != obj(dest))
+//@ requires len(dest) >= 32 && len(a) >= 1 && obj(dest) != obj(a) && (y == nil || valid(y, 1) && obj(y) != obj(dest) && obj(y) != obj(a))
 //@ assigns dest[0:32], y[0:1]
 //@ ensures [public-image-is-the-generator-times-the-written-share] y != nil ==> e2Eq(g2mulgen(be32(dest[0:32])), *y)
+//@ ensures [written-share-is-the-polynomial-image] be32(dest[0:32]) == old(frhorner(a, len(a), x))
 
 //@ func E2PolynomialImages mode int props C07 C09
-//@ requires 1 <= len(out) && len(out) <= 255 && len(A) >= 1
+//@ requires 1 <= len(out) && len(out) <= 255 && len(A) >= 1 && obj(out) != obj(A)
 //@ assigns out[:]
+//@ ensures [every-public-share-is-the-polynomial-image-at-its-index] forall(k, 0, len(out), out[k] == old(e2horner(A, len(A), k+1)))
 
 //@ func generatorScalarMultG2 mode int props C09 C12
 //@ requires res != nil && expo != nil
@@ -308,8 +319,9 @@ package crypto
 //@ ensures [share-matches-public-share] result == shareOK(s)
 
 //@ func (*feldmanVSSstate).computePublicKeys mode int props C07 C09
-//@ requires vssShape(s) && len(s.y) == s.size && len(s.vA) == s.threshold+1
+//@ requires vssShape(s) && len(s.y) == s.size && len(s.vA) == s.threshold+1 && obj(s.y) != obj(s.vA)
 //@ assigns s.y[:]
+//@ ensures [public-shares-are-the-images-of-the-verification-vector] forall(k, 0, len(s.y), s.y[k] == old(e2horner(s.vA, len(s.vA), k+1)))
 
 //@ func (*feldmanVSSstate).Start mode int props C07 C10 C09
 //@ requires vssShape(s)
@@ -1418,11 +1430,25 @@ package crypto
 //@ loop 2 invariant 0 <= i && i <= size && len(skShares) == size && len(pkShares) == size && fresh(skShares) && fresh(pkShares)
 //@ loop 2 invariant forall(k, 0, i, typeis(skShares[k], *prKeyBLSBLS12381) && typeis(pkShares[k], *pubKeyBLSBLS12381) && pkWF(unbox(pkShares[k], *pubKeyBLSBLS12381)))
 
+// frhorner(a, n, x): the Horner value in F_r of the polynomial with the n coefficients a[0..n) at the small integer x
+// (step: add(mulMont(H, toMont(x)), a[0]) - a Montgomery product by the Montgomery form of x, i.e. a plain product by x)
+//@ cfunc Fr_to_montg nobody params res a
+//@ requires res != nil && a != nil
+//@ assigns *res
+//@ ensures *res == frToMont(old(*a))
+
+//@ cfunc Fr_mul_montg nobody params res a b
+//@ requires res != nil && a != nil && b != nil
+//@ assigns *res
+//@ ensures *res == frMulM(old(*a), old(*b))
+
 //@ cfunc Fr_polynomial_image props C06 C07 C09 params image y a degree x
-//@ requires image != nil && degree >= 0 && valid(a, degree+1) && (y == nil || valid(y, 1) && obj(y) != obj(image))
+//@ requires image != nil && degree >= 0 && valid(a, degree+1) && obj(image) != obj(a) && (y == nil || valid(y, 1) && obj(y) != obj(image) && obj(y) != obj(a))
 //@ assigns *image, y[0:1]
 //@ ensures [public-image-is-the-generator-times-the-image] y != nil ==> *y == g2mulJ(*image)
+//@ ensures [horner-form-of-the-polynomial] *image == old(frhorner(a, degree+1, x))
 //@ loop 1 invariant -1 <= i && i <= degree
+//@ loop 1 invariant [partial-horner] *image == frhorner(a, i+1, degree-i, x) && xR == frToMont(x)
 //@ loop 1 assigns *image, i
 
 // ---- Lagrange coefficients (C06): the index products are batched in 64-bit limbs, 8 byte-sized factors at a time;
